@@ -19,6 +19,9 @@ EXPLANATION = (
     "CIGAR halves conserve the split operator's length; R5 no guessing -- realign returns an allele index only from a non-empty candidate list under `single candidate or best < second` (strict), otherwise (None, None); "
     "symbolic ALTs return before any window is cut; detect_alleles_by_alignment yields only valid allele indices; R6 -- in the no-reference match/insertion handlers the allele sequence and the query are indexed by the same progress term (matched + inserted)."
 )
+EXPLANATION += (
+    " " + "R8: the per-read cursor into the sorted variant list (both the reference and the no-reference branch of _alignments_to_reads) only passes entries whose position is strictly smaller than reference_start, and the cursor is what the branch's detector starts from."
+)
 NOT_DECIDED = "That the edit distances favour the right allele (C19 / value level) and the allele-progress arithmetic of _detect_alleles_match/insertion/deletion."
 ASSUMPTIONS = ["pysam cigartuples use the codes MIDNSHP=X -> 0..8"]
 
@@ -498,6 +501,26 @@ def r7(ctx):
             ctx.ob(fi.qual, "strip-%s-only-if-shared-by-all" % ("suffix" if i == 0 else "prefix"), ok and ok_n, fi.loc(w), "a %s base is removed only while REF and every ALT share it and none is empty%s" % ("trailing" if i == 0 else "leading", "; the position moves with the prefix" if i == 1 else "") if ok and ok_n else "normalisation loop `while %s` does not require that ALL alleles share the base: an allele can collapse onto REF" % u(w.test))
 
 
+def r8(ctx):
+    """The per-read cursor into the sorted variant list only passes variants that lie strictly left of the read."""
+    fi = ctx.func("whatshap.variants.ReadSetReader._alignments_to_reads")
+    loops = [w for w in walk_function(fi.node) if isinstance(w, ast.While) and len(w.body) == 1 and isinstance(w.body[0], ast.AugAssign) and isinstance(w.body[0].op, ast.Add) and u(w.body[0].value) == "1"]
+    ctx.require(len(loops) >= 2, "cursor-advancing loops (with / without reference) not found in _alignments_to_reads")
+    for w in loops:
+        cur = u(w.body[0].target)
+        at = atoms(w.test, True)
+        bound = [t for t, p in at if p and t.startswith("%s < len(" % cur)]
+        seq = bound[0][len("%s < len(" % cur):-1] if bound else None
+        strict = [t for t, p in at if p and t.endswith("< alignment.bam_alignment.reference_start") and "[%s]" % cur in t]
+        ok = bool(bound) and len(strict) == 1 and len(at) == 2 and isinstance(w.test, ast.BoolOp) and isinstance(w.test.op, ast.And)
+        ctx.ob(fi.qual, "cursor-skips-only-variants-left-of-the-read:%s" % (seq or "?"), ok, fi.loc(w), "the cursor passes %s[%s] only while it is < reference_start: a variant on the first aligned base is still examined" % (seq, cur) if ok else "`while %s` can pass a variant the read covers (position >= reference_start): no allele is recorded for it" % u(w.test)[:120])
+        # the cursor is handed to the detector of the same branch
+        blk = w.parent.body if w in getattr(w.parent, "body", []) else getattr(w.parent, "orelse", [])
+        det = [c for st in blk for c in ast.walk(st) if isinstance(c, ast.Call) and (u(c.func) in ("_detect_alleles", "self.detect_alleles_by_alignment"))]
+        okd = len(det) == 1 and any(u(a) == cur for a in det[0].args)
+        ctx.ob(fi.qual, "cursor-handed-to-detector:%s" % (seq or "?"), okd, fi.loc(det[0]) if det else fi.loc(w), "detection starts at the cursor" if okd else "the detector of this branch does not start at the cursor %s" % cur)
+
+
 RULES = [
     ("C06.R1", "CIGAR consumption tables of the three walkers vs. SAM", r1),
     ("C06.R2", "unknown operators are rejected", r2),
@@ -506,5 +529,6 @@ RULES = [
     ("C06.R5", "no guessing: strict best, non-empty candidates, symbolic ALT", r5),
     ("C06.R6", "no-reference handlers index allele and query by the same progress", r6),
     ("C06.R7", "variant normalisation strips only bases shared by all alleles", r7),
+    ("C06.R8", "variant cursor skips only variants strictly left of the read", r8),
 ]
-FLOORS = {"C06.R1": 28, "C06.R2": 6, "C06.R3": 8, "C06.R4": 13, "C06.R5": 10, "C06.R6": 4, "C06.R7": 4}
+FLOORS = {"C06.R1": 28, "C06.R2": 6, "C06.R3": 8, "C06.R4": 13, "C06.R5": 10, "C06.R6": 4, "C06.R7": 4, "C06.R8": 4}
